@@ -75,6 +75,17 @@ Section System.
   | XR_init : xreachable x_init
   | XR_step : forall s s', xreachable s -> xstep s s' -> xreachable s'.
 
+End System.
+
+(* any two quorums of any two configurations of the family intersect *)
+Definition inter_family (F : list (list nat * list nat)) : Prop :=
+  forall a b, In a F -> In b F -> forall p q,
+    joint_sat (fst a) (snd a) p -> joint_sat (fst b) (snd b) q -> exists v, p v = true /\ q v = true.
+
+Section Micro.
+  (* the configurations a node may use when it tallies votes or computes the commit index *)
+  Variable F : list (list nat * list nat).
+
   (* ---------------------------------------------------------------- micro level *)
   Definition set_node (s : mstate) (id : nat) (n' : nstate) : mstate :=
     mkM (upd (nodes s) id n') (msgs s) (gv s) (ga s) (LL s) (lof s).
@@ -121,8 +132,9 @@ Section System.
       n_role (nodes s id) = Candidate ->
       mstep s (set_node s id (record_vote (m_from m) (negb (m_reject m)) (nodes s id)))
   (* a candidate with a quorum of grants becomes leader *)
-  | M_win : forall id,
-      n_role (nodes s id) = Candidate -> tally c0 c1 (nodes s id) = VoteWon ->
+  | M_win : forall id cfg,
+      In cfg F ->
+      n_role (nodes s id) = Candidate -> tally (fst cfg) (snd cfg) (nodes s id) = VoteWon ->
       mstep s (set_leader_log (set_node s id (become_leader id (nodes s id)))
                               id (n_term (nodes s id)) (n_log (become_leader id (nodes s id))))
   | M_propose : forall id p,
@@ -134,12 +146,17 @@ Section System.
       In m (msgs s) -> m_type m = MsgAppResp -> m_reject m = false -> m_to m = id ->
       m_term m = n_term (nodes s id) -> n_role (nodes s id) = Leader ->
       mstep s (set_node s id (set_match (upd (n_match (nodes s id)) (m_from m) (m_index m)) (nodes s id)))
-  | M_selfack : forall id,
+  | M_selfack : forall id k,
+      n_role (nodes s id) = Leader -> k <= length (n_log (nodes s id)) ->
+      mstep s (set_node s id (set_match (upd (n_match (nodes s id)) id k) (nodes s id)))
+  (* progress of a peer forgotten (the peer left the configuration; Match restarts at 0) *)
+  | M_lower : forall id f,
+      (forall x, f x <= n_match (nodes s id) x) ->
+      mstep s (set_node s id (set_match f (nodes s id)))
+  | M_commit : forall id cfg,
+      In cfg F ->
       n_role (nodes s id) = Leader ->
-      mstep s (set_node s id (set_match (upd (n_match (nodes s id)) id (length (n_log (nodes s id)))) (nodes s id)))
-  | M_commit : forall id,
-      n_role (nodes s id) = Leader ->
-      mstep s (set_node s id (maybe_commit c0 c1 (nodes s id)))
+      mstep s (set_node s id (maybe_commit (fst cfg) (snd cfg) (nodes s id)))
   (* a follower handles MsgApp of its term *)
   | M_append : forall id m,
       In m (msgs s) -> m_type m = MsgApp -> m_to m = id -> m_term m = n_term (nodes s id) ->
@@ -175,4 +192,4 @@ Section System.
   Inductive msteps (s : mstate) : mstate -> Prop :=
   | MS_refl : msteps s s
   | MS_trans : forall s1 s2, msteps s s1 -> mstep s1 s2 -> msteps s s2.
-End System.
+End Micro.
